@@ -36,7 +36,7 @@ def trig_type(ir, trig):
             "U53": lambda: ir.special("U53"), "i32": lambda: ir.special("I32"), "option": lambda: ir.option(ir.special("String")),
             "vec": lambda: ir.vec(ir.special("String")), "map": lambda: ir.hashmap(ir.special("String"), ir.special("Bool")),
             "datetime": lambda: ir.special("DateTime"), "generic": lambda: ir.simple("T"), "bytes": lambda: ir.vec(ir.special("U8")),
-            "mapped_date": lambda: ir.simple("DateTime"), "string": lambda: ir.special("String"), "user": lambda: ir.simple("Other")}[trig]()
+            "mapped_date": lambda: ir.simple("DateTime"), "mapped_bytes_user": lambda: ir.simple("Bytes"), "string": lambda: ir.special("String"), "user": lambda: ir.simple("Other")}[trig]()
 
 
 def wrap(ir, t, ws):
@@ -54,7 +54,15 @@ def wrap(ir, t, ws):
     return t
 
 
-def build_pd(ir, trig, pos, ws, name_chars, crate="", file_name=""):
+def build_pd(ir, trig, pos, ws, name_chars, crate="", file_name="", multi=False):
+    pd = _build_pd(ir, trig, pos, ws, name_chars, crate, file_name)
+    if multi:
+        names = ir.L.structs["ParsedData"]
+        pd.fields[names.index("multi_file")] = True
+    return pd
+
+
+def _build_pd(ir, trig, pos, ws, name_chars, crate="", file_name=""):
     ty = wrap(ir, trig_type(ir, trig), ws)
     gens = ["T"] if trig == "generic" else []
     nm = RString(list(name_chars))
@@ -78,6 +86,8 @@ def cfg_for(lang, trig):
         return {"type_mappings": {"DateTime": {"typescript": "Date", "python": "datetime", "go": "time.Time", "swift": "Date", "kotlin": "Instant", "scala": "Instant"}[lang]}}
     if trig == "bytes" and lang == "typescript":
         return {"type_mappings": {"Vec<u8>": "Uint8Array"}}
+    if trig == "mapped_bytes_user" and lang == "typescript":
+        return {"type_mappings": {"Bytes": "Uint8Array"}}
     if trig == "bytes" and lang == "python":
         return {"type_mappings": {"Vec<u8>": "bytes"}}
     return {}
@@ -187,6 +197,13 @@ def problems_for(lang, text, extra_files=None):
         for h in ("ReviverFunc", "ReplacerFunc"):
             if re.search(r"\b%s\b" % h, lexers.strip_c_like(body, backtick="template")) and ("export const " + h) not in text:
                 out.append("`%s` is used but not defined" % h)
+        # a field whose type is one of the custom-translated types (registered by write_field) needs the helpers that translate it
+        code = lexers.strip_c_like(text, backtick="template")
+        fm = re.search(r"^\t(?:readonly )?[\w\"-]+\??: (Uint8Array|Date)(?: \| null)?;$", code, re.M)
+        if fm:
+            for h in ("ReviverFunc", "ReplacerFunc"):
+                if ("export const " + h) not in text:
+                    out.append("a field of type `%s` is generated but `%s` is not defined in the same output" % (fm.group(1), h))
     elif lang == "kotlin":
         for ann, imp in (("@Serializable", "kotlinx.serialization.Serializable"), ("@SerialName", "kotlinx.serialization.SerialName"), ("@JvmInline", "kotlin.jvm.JvmInline")):
             if ann in text and ("import " + imp) not in text:
@@ -227,6 +244,34 @@ def case_single(case):
     return finish_case(I, res)
 
 
+def case_ts_folder(case):
+    """TypeScript in folder mode (ParsedData.multi_file): the module that holds a custom-translated field defines the helpers"""
+    trig, pos, ws, multi = case
+    P = prog()
+    ir = IR(P.layout)
+    I = new_interp(P)
+    res = {"paths": 0, "violations": [], "case": [trig, pos, list(ws), multi]}
+    cfg = cfg_for("typescript", trig)
+
+    def entry(I):
+        pd = build_pd(ir, trig, pos, ws, [ord(c) for c in "Abc"], crate="app" if multi else "", file_name="app.ts" if multi else "", multi=multi)
+        ok, w, _ = bharness.generate(I, "typescript", pd, cfg)
+        return ok, bharness.concrete_text(w)
+
+    for kind, out, pc in I.explore(entry, max_paths=50):
+        res["paths"] += 1
+        if kind == "panic":
+            res["violations"].append({"kind": "panic", "msg": out.msg}); continue
+        ok, text = out
+        if not ok:
+            continue
+        if not re.search(r"\b(Uint8Array|Date)\b", text):
+            res["violations"].append({"kind": "vacuous", "problem": "the mapped type does not occur in the output", "text": text[:400]}); continue
+        for p in problems_for("typescript", text):
+            res["violations"].append({"kind": "undefined-helper", "problem": p + (" (folder mode)" if multi else ""), "text": text[:800]})
+    return finish_case(I, res)
+
+
 def case_swift_multi(case):
     """folder mode: two crates generated with one Swift value, then post_generation"""
     trig, pos, ws, order = case
@@ -263,7 +308,7 @@ def case_swift_multi(case):
 
 
 RUST_T = {"unit": "()", "u8": "u8", "u16": "u16", "u32": "u32", "U53": "U53", "i32": "i32", "option": "Option<String>", "vec": "Vec<String>", "map": "HashMap<String, bool>",
-          "datetime": "OffsetDateTime", "generic": "T", "bytes": "Vec<u8>", "mapped_date": "DateTime", "string": "String", "user": "Other"}
+          "datetime": "OffsetDateTime", "generic": "T", "bytes": "Vec<u8>", "mapped_date": "DateTime", "mapped_bytes_user": "Bytes", "string": "String", "user": "Other"}
 
 
 def render(trig, pos, ws, name="Abc"):
@@ -313,7 +358,9 @@ def run(rep, tier, only=None):
     rep.assumptions = ["Python use/def is decided with CPython's ast on the concretised output (annotations are lazy, bases/defaults/assignments eager)",
                        "helper vocabularies per language are listed in checks/c12.py"]
     reported = set()
-    for gname, fn, cs in (("single-file", "case_single", cases), ("swift-folder", "case_swift_multi", multi)):
+    tsf = [(trig, pos, ws, m) for trig in ("bytes", "mapped_date", "mapped_bytes_user") for pos in ("field", "field_default", "struct_variant_field") for ws in ((), ("option",)) for m in (False, True)]
+    rep.bounds["typescript custom translations"] = "a field / serde(default) field / struct-variant field of a type mapped to Uint8Array or Date (special-type mapping and user-type mapping), bare or under Option, single-file and folder mode: ReviverFunc and ReplacerFunc are defined in the same output"
+    for gname, fn, cs in (("single-file", "case_single", cases), ("swift-folder", "case_swift_multi", multi), ("ts-folder", "case_ts_folder", tsf)):
         if only and gname not in only:
             continue
         rep.harnesses[gname] = len(cs)
@@ -356,6 +403,29 @@ def run(rep, tier, only=None):
                     rep.violation(sig, "%s on `%s`: %s" % (lang, src.strip().replace("\n", " "), probs[0]), {"source": src, "lang": lang, "config": cfg})
                 else:
                     rep.inconc("engine mismatch %s: interpreter output has %r, real output is fine" % (case, v.get("problem")))
+            elif gname == "ts-folder":
+                trig, pos, ws, multi = case
+                if v["kind"] == "vacuous":
+                    rep.inconc("ts-folder %s: %s" % (case, v["problem"])); continue
+                sig = {"lang": "typescript", "kind": v["kind"], "mode": "folder" if multi else "file", "trigger": trig, "position": pos}
+                key = ("ts-folder", trig, multi, pos)
+                if key in reported:
+                    continue
+                src = render(trig, pos, ws)
+                cfg = cfg_for("typescript", trig)
+                f = {"source": src, "crate_name": "app" if multi else "", "file_name": "app.ts" if multi else "", "file_path": "app/src/lib.rs"}
+                real = nat.ask({"op": "generate", "lang": "typescript", "multi_file": multi, "files": [f], "config": cfg})
+                rep.validated += 1
+                out = (real.get("out") or {}).get("app" if multi else "", None)
+                if out is None:
+                    rep.inconc("ts-folder replay failed: %s" % str(real)[:200]); continue
+                probs = problems_for("typescript", out)
+                if probs:
+                    reported.add(key)
+                    rep.violation(sig, "typescript (%s) on `%s` with type_mappings %s: %s" % ("folder mode" if multi else "single file", src.strip().replace("\n", " "), cfg.get("type_mappings"), probs[0]),
+                                  {"ts_folder": True, "file": f, "multi": multi, "config": cfg})
+                else:
+                    rep.inconc("engine mismatch (ts-folder %s): interpreter %r, real library fine" % (case, v.get("problem")))
             else:
                 trig, pos, ws, order = case
                 sig = {"lang": "swift", "kind": v["kind"], "mode": "folder", "order": order, "trigger": trig}
@@ -390,6 +460,13 @@ def run(rep, tier, only=None):
 
 def replay(case):
     c = case["case"]
+    if c.get("ts_folder"):
+        rep = Replayer()
+        real = rep.ask({"op": "generate", "lang": "typescript", "multi_file": c["multi"], "files": [c["file"]], "config": c["config"]})
+        rep.close()
+        out = (real.get("out") or {}).get("app" if c["multi"] else "", "")
+        print(out)
+        return 1 if problems_for("typescript", out) else 0
     if c.get("folder"):
         import os
         from vlib.common import CACHE
